@@ -210,7 +210,7 @@ public:
 			return;
 		}
 		time_t timeout;
-		int toffset;
+		int64_t toffset;
 		std::string sid(data_in_.begin(),data_in_.end());
 		if(!sessions_->load(sid,timeout,data_out_) || (toffset=(timeout)) < 0) {
 			hout_.opcode=opcodes::no_data;
